@@ -53,6 +53,83 @@ def cases(ctx):
         for oct_ in range(256):
             for shape in ("short", "l63", "max") if ctx.tier == "thorough" else ("l63",):
                 yield from succ_cases(rng, o, shape, oct_)
+    yield from succ_sweep(ctx)
+
+
+SPECIAL = [0x00, 0x01, 0x20, 0x2E, 0x40, 0x41, 0x5A, 0x5B, 0x5C, 0x60, 0x61, 0x7A, 0x7B, 0x7F, 0xFE, 0xFF]
+
+
+def pad255(ls, o):
+    """prepend maximal 0xff labels so that the name is as long as it can get (255 if possible)"""
+    room = 255 - sum(len(l) + 1 for l in ls + o)
+    pads = []
+    while room > 64:
+        pads.append(b"\xff" * 63)
+        room -= 64
+    if room >= 2:
+        pads.append(b"\xff" * (room - 1))
+    return pads + ls + o
+
+
+def succ_sweep(ctx):
+    """Deterministic sweep of the branches of _absolute_successor/_absolute_predecessor: every octet
+    value as the rightmost non-0xff octet of a least-significant label that cannot be extended
+    (63 octets, or name already 255 long), followed by 0xff runs of length 0,1,2,5; labels that must
+    be chopped (all 0xff) so that the search continues in the parent; 0x00 runs for predecessor."""
+    rng = ctx.rng
+    origins = [[b"example", b""], [b""], [b"eX", b"Z", b""]]
+    runs = (0, 1, 2, 5)
+    thorough = not ctx.quick
+
+    def emit(kind, case, model):
+        # in the quick tier part of the sweep is oracle-only (kind suffix "-o"): the oracle still
+        # evaluates the property on the implementation, only the model comparison is skipped
+        ctx.count("sweep:" + kind + (":model" if (model or thorough) else ":oracle-only"))
+        return (kind if (model or thorough) else kind + "-o"), case
+
+    for x in range(256):
+        for r in runs:
+            o = origins[(x + r) % len(origins)] if thorough else origins[0]
+            filler = bytes([rng.choice([0x61, 0xFF, x, 0x5A, 0x40])])
+            lab63 = filler * (62 - r) + bytes([x]) + b"\xff" * r
+            short = bytes([rng.choice(b"amZ@")]) * rng.randint(0, 3) + bytes([x]) + b"\xff" * r
+            shapes = {
+                "l63": [lab63] + o,                          # cannot extend: label full
+                "max": pad255([short], o),                    # cannot extend: name full, label short
+                "chop": [b"\xff" * 63, lab63] + o,           # first label all 0xff: chop, continue in parent
+                "chopmax": pad255([b"\xff" * rng.choice([1, 5, 63]), short], o),
+                "short": [short] + o,                         # extendable (the common path)
+            }
+            for shape, n in shapes.items():
+                if not (nl.fits(n) and nl.fits(o)):
+                    continue
+                special = x in SPECIAL
+                if sum(len(l) + 1 for l in n) == 255 or shape in ("l63", "chop", "short"):
+                    for p in (0, 1):
+                        model = (shape in ("l63", "max", "chop") and p == 0) or (special and (p == 0 or r == 0))
+                        yield emit("succ", [14, n, o, p], model)
+                if r in (0, 1) or special:
+                    for p in (0, 1):
+                        model = (shape == "l63" and r == 0 and p == 0) or (special and r == 0 and shape in ("l63", "max"))
+                        yield emit("pred", [15, n, o, p], model)
+    # predecessor: labels ending in runs of 0x00, the single label \000, every last octet
+    for x in range(256):
+        o = origins[x % len(origins)] if thorough else origins[0]
+        firsts = (bytes([x]), b"a" + bytes([x]), b"a" * 62 + bytes([x]), bytes([x]) + b"\x00", bytes([x]) + b"\x00\x00")
+        for fi, first in enumerate(firsts):
+            for ni, n in enumerate(([first] + o, [first, b"\x00"] + o, pad255([first], o))):
+                if nl.fits(n):
+                    for p in (0, 1):
+                        model = (fi in (0, 3) and ni == 0) or (x in SPECIAL and ni != 1 and p == 1)
+                        yield emit("pred", [15, n, o, p], model)
+                        if x in SPECIAL:
+                            yield emit("succ", [14, n, o, p], ni == 0 and p == 0)
+    for o in origins:
+        for p in (0, 1):
+            yield "succ", [14, o, o, p]
+            yield "pred", [15, o, o, p]
+            yield "succ", [14, [b"\x00"] + o, o, p]
+            yield "pred", [15, [b"\x00"] + o, o, p]
 
 
 def succ_cases(rng, o, shape, oct_):
@@ -84,7 +161,7 @@ def succ_cases(rng, o, shape, oct_):
 
 
 def in_model(kind, case):
-    return case[0] not in (20, 21)
+    return case[0] not in (20, 21) and not kind.endswith("-o")
 
 
 def impl(case):
@@ -136,6 +213,8 @@ def common_suffix(a, b):
 
 def oracle(ctx, kind, case, out):
     F = []
+
+    kind = kind[:-2] if kind.endswith("-o") else kind
 
     def fail(what, **kw):
         F.append({"kind": kind + ":" + what, "what": what, "impl": out, **kw})
